@@ -1806,7 +1806,7 @@ func (e *Engine) execInstr1(fr *Frame, st *State, in ssa.Instruction) {
 	case *ssa.Alloc:
 		t := x.Type().(*types.Pointer).Elem()
 		_, isArr := t.Underlying().(*types.Array)
-		if x.Heap || isArr {
+		if (x.Heap && !capturedOnly(x)) || isArr {
 			a := e.allocObject(st, t)
 			if !x.Heap && isArr {
 				fr.localRegions = append(fr.localRegions, a.region.val.Uint64())
@@ -2127,4 +2127,36 @@ func (v Value) String() string {
 		parts = append(parts, s)
 	}
 	return "{" + strings.Join(parts, ", ") + "}"
+}
+
+// capturedOnly: a variable of a harness/spec function that is heap-allocated only because a
+// closure (vForall/vExists body) captures it. It is not reachable from the code under contract,
+// so it is kept as a frame cell and a modifies-havoc of the heap does not touch it.
+func capturedOnly(x *ssa.Alloc) bool {
+	fn := x.Parent()
+	for fn.Parent() != nil {
+		fn = fn.Parent()
+	}
+	n := fn.Name()
+	if !(strings.HasPrefix(n, "verif_") || strings.HasPrefix(n, "spec_") || strings.HasPrefix(n, "VerifSpec")) {
+		return false
+	}
+	if _, isArr := x.Type().(*types.Pointer).Elem().Underlying().(*types.Array); isArr {
+		return false
+	}
+	closure := false
+	for _, r := range *x.Referrers() {
+		switch r := r.(type) {
+		case *ssa.Store:
+			if r.Addr != x {
+				return false
+			}
+		case *ssa.UnOp, *ssa.DebugRef:
+		case *ssa.MakeClosure:
+			closure = true
+		default:
+			return false
+		}
+	}
+	return closure
 }
